@@ -225,8 +225,16 @@ def gen_table(rng, T, F, n):
 def gen_jc_case(rng, idx):
     self_mode = rng.random() < 0.3
     T = int(rng.choice([1, 2, 3, 5, 8, 13, 21, 40]))
-    Fa = int(rng.integers(1, 5))
-    Fb = Fa if rng.random() < 0.4 else int(rng.integers(1, 5))
+    # feature counts: Fa > Fb, Fa < Fb and Fa = Fb each get a third of the two-sided cases
+    shape_mode = ['Fa>Fb', 'Fa<Fb', 'Fa=Fb'][idx % 3]
+    if shape_mode == 'Fa>Fb':
+        Fa = int(rng.integers(2, 6))
+        Fb = int(rng.integers(1, Fa))
+    elif shape_mode == 'Fa<Fb':
+        Fb = int(rng.integers(2, 6))
+        Fa = int(rng.integers(1, Fb))
+    else:
+        Fa = Fb = int(rng.integers(1, 5))
     na = int(rng.integers(1, 7))
     nb = na if rng.random() < 0.3 else int(rng.integers(1, 7))
     dta = DTYPES[idx % 8] if rng.random() < 0.7 else str(rng.choice(DTYPES))
@@ -411,11 +419,13 @@ def b1d_request(c):
 
 
 def check_b1d(ctx, c, got, model):
+    if not_run(ctx, got):
+        return
     ctx.case(c, nontrivial=len(c['a']) > 0, tags=['bincount2d-1D', 'b1d-' + (c['why'] or 'valid'), 'dtype-x=' + c['dtype']])
     if c['why']:
         # malformed 1-D stream: must be rejected
         if 'crash' in got:
-            ctx.violation('malformed 1-D stream (%s) crashed the process in libinfo.bincount2d (return code %s)'
+            ctx.violation('malformed 1-D stream (%s) crashed or hung the process in libinfo.bincount2d (%s)'
                           % (c['why'], got['crash']), c)
         elif 'error' not in got:
             ctx.violation('malformed 1-D stream (%s) was accepted by libinfo.bincount2d: %s counts for %d frames'
@@ -445,7 +455,7 @@ import sys, json
 sys.path.insert(0, %r)
 from props import c18
 import numpy as np
-cases = json.load(sys.stdin)
+cases = json.load(open(sys.argv[1]))
 for i, c in enumerate(cases):
     print('START %%d' %% i, flush=True)
     if c.get('kind') == 'sweep':
@@ -462,32 +472,133 @@ for i, c in enumerate(cases):
 ''' % os.path.dirname(HERE)
 
 
-def run_in_child(cases):
-    """every call of the compiled kernel on a generated stream happens here, in a child process, so that an
-    out-of-bounds access (dropped guard, wrong index) is reported instead of killing the check.
-    Returns one result per case: {'error': kind} | {'ok': table, 'dtype', 'shape', 'total'} | {'sweep': ...} |
-    {'crash': return code}"""
-    out = [None] * len(cases)
-    start = 0
-    while start < len(cases):
-        p = subprocess.run([sys.executable, '-c', CHILD], input=json.dumps(cases[start:]),
-                           capture_output=True, text=True, timeout=600)
-        last_started = None
-        for line in p.stdout.split('\n'):
+CHILD_START_TIMEOUT = 180      # seconds until the child has imported enspara and started its first case
+CHILD_CASE_TIMEOUT = int(os.environ.get('C18_CASE_TIMEOUT', '60'))        # seconds for one small case (they take milliseconds)
+CHILD_SWEEP_TIMEOUT = 300      # seconds for one 16-thread sweep over a large table
+CHILD_MAX_FAILS = 4            # after that many crashes / hangs the remaining cases are not run
+
+
+def _child_once(cases):
+    """run one child over `cases`; returns (results-by-index dict, failure) where failure is None or
+    (index of the case that was running | None, description)"""
+    import queue
+    import tempfile
+    import threading
+    fd, path = tempfile.mkstemp(prefix='c18_cases_', suffix='.json')
+    with os.fdopen(fd, 'w') as f:
+        json.dump(cases, f)
+    errf = tempfile.TemporaryFile(mode='w+')
+    res, started, failure = {}, None, None
+    try:
+        proc = subprocess.Popen([sys.executable, '-c', CHILD, path], stdout=subprocess.PIPE, stderr=errf, text=True)
+    except OSError as e:
+        os.unlink(path)
+        return res, (None, 'could not start the child: %s' % e)
+    q = queue.Queue()
+
+    def reader():
+        try:
+            for line in proc.stdout:
+                q.put(line)
+        except Exception:  # noqa
+            pass
+        q.put(None)
+    th = threading.Thread(target=reader, daemon=True)
+    th.start()
+    try:
+        while True:
+            if started is None:
+                limit = CHILD_START_TIMEOUT
+            else:
+                limit = CHILD_SWEEP_TIMEOUT if cases[started].get('kind') == 'sweep' else CHILD_CASE_TIMEOUT
+            try:
+                line = q.get(timeout=limit)
+            except queue.Empty:
+                failure = (started, 'no answer within %d s (hang)' % limit)
+                break
+            if line is None:
+                break
             if line.startswith('START '):
-                last_started = int(line.split()[1])
+                started = int(line.split()[1])
             elif line.startswith('RESULT '):
                 _, i, payload = line.split(' ', 2)
-                out[start + int(i)] = json.loads(payload)
-        done = [i for i in range(start, len(cases)) if out[i] is not None]
-        if len(done) == len(cases) - start:
+                try:
+                    res[int(i)] = json.loads(payload)
+                except ValueError:
+                    failure = (int(i), 'unreadable answer')
+                    break
+    finally:
+        try:
+            proc.kill()
+        except Exception:  # noqa
+            pass
+        try:
+            rc = proc.wait(timeout=30)
+        except Exception:  # noqa
+            rc = None
+        try:
+            errf.seek(0)
+            err = errf.read()[-300:]
+        except Exception:  # noqa
+            err = ''
+        errf.close()
+        try:
+            os.unlink(path)
+        except OSError:
+            pass
+    if failure is None and len(res) < len(cases):
+        # the child ended (crashed) inside case `started`
+        failure = (started, 'child ended with return code %s: %s' % (rc, err.strip()[-200:]))
+    return res, failure
+
+
+def run_in_child(cases):
+    """every call of the compiled kernel on a generated stream happens here, in a child process, so that an
+    out-of-bounds access (dropped guard, wrong index) is reported instead of killing the check: a child that
+    crashes, hangs or answers garbage while case i runs gives {'crash': ...} for case i (a violation for the
+    caller) and a fresh child continues after it; after CHILD_MAX_FAILS such failures the remaining cases get
+    {'not_run': ...}.  Never raises for anything the code under test does.
+    Returns one result per case: {'error': kind} | {'ok': table, 'dtype', 'shape', 'total'} | {'sweep': ...} |
+    {'crash': description} | {'not_run': reason}"""
+    out = [None] * len(cases)
+    start, fails, startup_fails = 0, 0, 0
+    while start < len(cases):
+        res, failure = _child_once(cases[start:])
+        for i, r in res.items():
+            out[start + i] = r
+        if failure is None:
             break
-        # the child died inside case `last_started`
-        if last_started is None:
-            raise RuntimeError('child process failed before the first case: %s' % p.stderr[-2000:])
-        out[start + last_started] = {'crash': p.returncode, 'stderr': p.stderr[-300:]}
-        start = start + last_started + 1
+        idx, what = failure
+        if idx is None or out[start + idx] is not None:
+            # died before the first case / between two cases: retry once, then give up on the rest
+            startup_fails += 1
+            nxt = start + (max(res) + 1 if res else 0)
+            if startup_fails >= 2:
+                for k in range(nxt, len(cases)):
+                    if out[k] is None:
+                        out[k] = {'not_run': 'child process unusable: %s' % what}
+                break
+            start = nxt
+            continue
+        out[start + idx] = {'crash': what}
+        fails += CHILD_MAX_FAILS if 'hang' in what else 1      # a hang costs a whole timeout: stop after one
+        start = start + idx + 1
+        if fails >= CHILD_MAX_FAILS:
+            for k in range(start, len(cases)):
+                if out[k] is None:
+                    out[k] = {'not_run': 'child crashed or hung %d times before this case' % fails}
+            break
+    for k in range(len(cases)):
+        if out[k] is None:
+            out[k] = {'not_run': 'no answer'}
     return out
+
+
+def not_run(ctx, got):
+    if got is not None and 'not_run' in got:
+        ctx.skip('kernel call not run: ' + got['not_run'][:60])
+        return True
+    return False
 
 
 # --------------------------------------------------------------------------------------
@@ -501,7 +612,8 @@ def jc_tags(case):
     else:
         tags += ['dtype-y=' + case['Y']['dtype'], 'layout-y=' + case['Y']['layout'],
                  'mixed-dtype' if case['Y']['dtype'] != case['X']['dtype'] else 'same-dtype',
-                 'Fa!=Fb' if case['Y']['F'] != case['X']['F'] else 'Fa=Fb']
+                 'Fa>Fb' if case['X']['F'] > case['Y']['F'] else
+                 ('Fa<Fb' if case['X']['F'] < case['Y']['F'] else 'Fa=Fb')]
     if case['X'].get('one_d') or (case.get('Y') or {}).get('one_d'):
         tags.append('1-D')
     tags.append('default-n' if case.get('n_x') is None or (case.get('Y') is not None and case.get('n_y') is None)
@@ -512,12 +624,14 @@ def jc_tags(case):
 
 
 def check_jc_case(ctx, case, got, model):
-    """valid stream: real table (computed in the child) == brute force == model"""
+    """valid stream: real table (computed in the child) == brute force (cell by cell) == model"""
+    if not_run(ctx, got):
+        return None
     ref = oracle_counts(case)
     flat = [v for r in case['X']['rows'] for v in r]
     ctx.case(case, nontrivial=len(set(flat)) > 1 or case['X']['T'] > 1, tags=jc_tags(case))
     if 'crash' in got:
-        ctx.violation('joint counts of a valid stream crashed the process (return code %s)' % got['crash'], case)
+        ctx.violation('joint counts of a valid stream crashed or hung the process (%s)' % got['crash'], case)
         return None
     if 'error' in got:
         ctx.violation('joint counts of a valid stream raised %s' % got['error'], case)
@@ -546,11 +660,13 @@ def _short(m):
 
 
 def check_malformed(ctx, case, got, model):
+    if not_run(ctx, got):
+        return
     ctx.case(case, nontrivial=True, tags=['malformed', 'why=' + case['why'],
                                           'entry=' + case.get('entry', 'joint_counts'),
                                           'dtype-x=' + case['X']['dtype']])
     if 'crash' in got:
-        ctx.violation('malformed stream (%s) crashed the process (return code %s): out-of-bounds access'
+        ctx.violation('malformed stream (%s) crashed or hung the process (%s): out-of-bounds access'
                       % (case['why'], got['crash']), case)
         return
     if 'error' not in got:
@@ -634,11 +750,11 @@ def check_mi_laws(ctx, case, jc, tr, got2, model):
                               % (mi[x, x], H, x), dict(case, stage='mi-diag'))
                 return
     # relabelling states and reordering frames: the real pipeline was re-run (in the child) on the transformed stream
-    if tr is None:
+    if tr is None or not_run(ctx, got2):
         return
     c2, pa, pb = tr['case'], tr['pa'], tr['pb']
     if 'crash' in got2:
-        ctx.violation('relabelled / frame-permuted valid stream crashed the process (return code %s)' % got2['crash'],
+        ctx.violation('relabelled / frame-permuted valid stream crashed or hung the process (%s)' % got2['crash'],
                       dict(case, stage='relabel', transformed=c2))
         return
     if 'error' in got2:
@@ -1129,9 +1245,11 @@ def run_sweep(d):
 
 
 def check_sweep(ctx, d, got):
+    if not_run(ctx, got):
+        return
     ctx.case(d, nontrivial=True, tags=['thread-sweep', 'dtype-x=' + d['dta'], 'layout-x=' + d['layout']])
     if 'crash' in got:
-        ctx.violation('joint_counts on a valid stream crashed the process (return code %s)' % got['crash'], d)
+        ctx.violation('joint_counts on a valid stream crashed or hung the process (%s)' % got['crash'], d)
         return
     r = got['sweep']
     for th, omp in zip(r['threads'], r['omp']):
@@ -1179,7 +1297,7 @@ def jc_pipeline(ctx, cases, n_mi, n_sched):
     tables = []
     crashed = False
     for c, g, r in zip(cases, got, resp):
-        crashed = crashed or 'crash' in g
+        crashed = crashed or 'crash' in g or 'not_run' in g
         jc = check_jc_case(ctx, c, g, r)
         if jc is not None and not c.get('wide'):
             tables.append((c, jc))
@@ -1194,7 +1312,7 @@ def jc_pipeline(ctx, cases, n_mi, n_sched):
     for (c, jc), t, m in zip(todo, trs, models):
         g2 = next(it) if t is not None else None
         check_mi_laws(ctx, c, jc, t, g2, m)
-        crashed = crashed or (g2 is not None and 'crash' in g2)
+        crashed = crashed or (g2 is not None and ('crash' in g2 or 'not_run' in g2))
     sched_check(ctx, tables[:n_sched])
     return not crashed, tables
 
@@ -1214,25 +1332,30 @@ def run(ctx):
     cases += [gen_wide_case(rng) for _ in range(ctx.n(40, 400))]
     ok, _ = jc_pipeline(ctx, cases, ctx.n(110, 3000), ctx.n(80, 2000))
     lap('jc+mi-laws+sched')
+    if not ok:
+        # the compiled kernel crashed / hung on a valid stream (violations recorded): stop here
+        ctx.note('stopped_after_crash', True)
+        ctx.note('section_seconds', times)
+        return
     # 2. malformed streams (child process)
     bad = [gen_malformed(rng, i) for i in range(ctx.n(120, 2400))]
     mresp = ctx.driver([jc_request(c) for c in bad])
     got = run_in_child(bad)
     for c, g, m in zip(bad, got, mresp):
         check_malformed(ctx, c, g, m)
-        ok = ok and 'crash' not in g
+        ok = ok and 'crash' not in g and 'not_run' not in g
     lap('malformed')
     # 3. thread sweep on larger tables (child process)
     sw = [gen_sweep(rng, k) for k in range(ctx.n(16, 200))]
     for d, g in zip(sw, run_in_child(sw)):
         check_sweep(ctx, d, g)
-        ok = ok and 'crash' not in g
+        ok = ok and 'crash' not in g and 'not_run' not in g
     lap('sweep')
     # 3b. the 1-D kernel libinfo.bincount2d (child process)
     b1 = [gen_b1d(rng, i) for i in range(ctx.n(48, 1200))]
     for c, g, m in zip(b1, run_in_child(b1), ctx.driver([b1d_request(c) for c in b1])):
         check_b1d(ctx, c, g, m)
-        ok = ok and 'crash' not in g
+        ok = ok and 'crash' not in g and 'not_run' not in g
     lap('bincount2d-1D')
     if not ok:
         # the compiled kernel accesses memory out of bounds: do not call it in this process
